@@ -35,9 +35,12 @@ MAX_ROUNDS = 3
 # public entry
 # ------------------------------------------------------------------------------------------------
 
-def inlined_program(prog: Program, callers: Iterable[str], keep: Iterable[str] = (), keep_callers: bool = True) -> Program:
+def inlined_program(prog: Program, callers: Iterable[str], keep: Iterable[str] = (), keep_callers: bool = True,
+                    any_name: bool = False) -> Program:
     callers = tuple(sorted(set(callers)))
     keepset = set(keep) | (set(callers) if keep_callers else set())
+    if any_name:
+        keepset.add('<any-name>')       # public helpers may be inlined too (used by normal.py, where `keep` lists every known function)
     key = (callers, tuple(sorted(keepset)))
     cache: Dict[object, Program] = prog.__dict__.setdefault('_inline_cache', {})
     if key in cache:
@@ -165,6 +168,32 @@ def _relocate(new: ast.AST, like: ast.AST) -> ast.AST:
         if hasattr(x, 'lineno') or isinstance(x, (ast.expr, ast.stmt)):
             ast.copy_location(x, like)
     return new
+
+
+def _fold(stmts: List[ast.stmt]) -> List[ast.stmt]:
+    """After a constant was substituted for a flag parameter: `if True: A else: B` is A (exact)."""
+    out: List[ast.stmt] = []
+    for s in stmts:
+        for fld in ('body', 'orelse', 'finalbody'):
+            sub = getattr(s, fld, None)
+            if isinstance(sub, list) and sub and isinstance(sub[0], ast.stmt):
+                setattr(s, fld, _fold(sub) or ([ast.copy_location(ast.Pass(), s)] if fld == 'body' else []))
+        if isinstance(s, ast.Try):
+            for h in s.handlers:
+                h.body = _fold(h.body) or [ast.copy_location(ast.Pass(), h)]
+        if isinstance(s, ast.If) and isinstance(s.test, ast.Constant):
+            out += s.body if s.test.value else s.orelse
+            continue
+        for x in ast.walk(s):
+            for fld, val in ast.iter_fields(x):
+                if isinstance(val, ast.IfExp) and isinstance(val.test, ast.Constant):
+                    setattr(x, fld, val.body if val.test.value else val.orelse)
+                elif isinstance(val, list):
+                    for i, v in enumerate(val):
+                        if isinstance(v, ast.IfExp) and isinstance(v.test, ast.Constant):
+                            val[i] = v.body if v.test.value else v.orelse
+        out.append(s)
+    return out
 
 
 class _Inliner:
@@ -379,7 +408,7 @@ class _Inliner:
         h: FuncInfo = tg[0][1]
         if h.module is not self.f.module or h.qualname in self.keep or h is self.f:
             return None
-        if not h.name.startswith('_') or (h.name.startswith('__') and h.name.endswith('__')):
+        if (not h.name.startswith('_') and '<any-name>' not in self.keep) or (h.name.startswith('__') and h.name.endswith('__')):
             return None
         if h.parent is not None or not isinstance(h.node, (ast.FunctionDef, ast.AsyncFunctionDef)):
             return None
@@ -600,7 +629,7 @@ class _Inliner:
                             target.id not in {v for k, v in rename.items() if k != r}:
                         rename[r] = target.id
                         drop_self_assign = True
-            body2 = [_Subst(subst, rename).visit(copy.deepcopy(b)) for b in body]
+            body2 = _fold([_Subst(subst, rename).visit(copy.deepcopy(b)) for b in body])
             for p in pre:
                 ast.copy_location(p, s)
                 ast.fix_missing_locations(p)
